@@ -76,3 +76,58 @@ Definition c15_site_ok (l : c15_lang) (s : c15_doc_site) : bool := c15_safe l (f
 Definition c15_plain_char (l : c15_lang) (c : char) : bool :=
   match lex_code (c15_cfg l) c with LCode => true | _ => false end.
 Definition c15_plain (l : c15_lang) (s : str) : bool := forallb (c15_plain_char l) s.
+
+(* ---- the inputs on which the CODE a printer writes around the comments is proved neutral ----
+   [c15_plain l s]: no character of s opens a comment or a literal of language l (identifiers, type
+   names, numbers, punctuation other than / # quotes backtick: whatever the language).
+   [c15_lit_str s]: s may be written between double quotes through Rust's {:?} (escape_debug): no
+   control character (those are printed as \u{..}, outside the tabulated alphabet of the model), no
+   U+2028 / U+2029 (which the ECMAScript reference lexer above treats as line ends).  Quotes and
+   backslashes are fine: {:?} escapes them.
+   [c15_name_ok l s]: both - a name that is printed bare in one place and quoted in another. *)
+Definition c15_lit_char (c : char) : bool :=
+  negb (c <? 32) && negb (c =? 127) && negb (c =? 8232) && negb (c =? 8233).
+Definition c15_lit_str (s : str) : bool := forallb c15_lit_char s.
+Definition c15_name_ok (l : c15_lang) (s : str) : bool := c15_plain l s && c15_lit_str s.
+
+(* every identifier of a type expression of the IR is plain *)
+Fixpoint c15_rtype_plain (l : c15_lang) (t : rtype) : bool :=
+  match t with
+  | RSimple id => c15_plain l id
+  | RGeneric id ps => c15_plain l id && forallb (c15_rtype_plain l) ps
+  | RVec x | RArray x _ | RSlice x | ROption x => c15_rtype_plain l x
+  | RHashMap k v => c15_rtype_plain l k && c15_rtype_plain l v
+  | RPrim _ => true
+  end.
+(* the target texts of a type_mappings table *)
+Definition c15_mappings_plain (l : c15_lang) (m : list (str * str)) : bool :=
+  forallb (fun kv => c15_plain l (snd kv)) m.
+
+(* a field: its key, and its type (the verbatim override of language [lg] if there is one) *)
+Definition c15_field_plain (l : c15_lang) (lg : lang) (f : rfield) : bool :=
+  c15_name_ok l (renamed (fid f)) && c15_name_ok l (original (fid f)) &&
+  match type_override f lg with Some o => c15_plain l o | None => c15_rtype_plain l (fty f) end.
+Definition c15_variant_plain (l : c15_lang) (lg : lang) (v : rvariant) : bool :=
+  c15_name_ok l (renamed (vid (variant_shared v))) && c15_name_ok l (original (vid (variant_shared v))) &&
+  match v with
+  | VUnit _ => true
+  | VTuple t _ => c15_rtype_plain l t
+  | VAnon fs _ => forallb (c15_field_plain l lg) fs
+  end.
+(* an item: its names, generic parameters, tag / content keys, members, types; [const_name] is the
+   function the back end applies to the name of a constant *)
+Definition c15_item_plain (l : c15_lang) (lg : lang) (const_name : str -> str) (it : ritem) : bool :=
+  match it with
+  | ItStruct s =>
+    c15_name_ok l (renamed (sid s)) && c15_name_ok l (original (sid s)) && forallb (c15_plain l) (sgenerics s) &&
+    forallb (c15_field_plain l lg) (sfields s)
+  | ItEnum e =>
+    let sh := enum_shared e in
+    c15_name_ok l (renamed (eid sh)) && c15_name_ok l (original (eid sh)) && forallb (c15_plain l) (egenerics sh) &&
+    match e with EUnit _ => true | EAlgebraic tag content _ => c15_name_ok l tag && c15_name_ok l content end &&
+    forallb (c15_variant_plain l lg) (evariants sh)
+  | ItAlias a =>
+    c15_name_ok l (renamed (aid a)) && c15_name_ok l (original (aid a)) && forallb (c15_plain l) (agenerics a) &&
+    c15_rtype_plain l (atype a)
+  | ItConst c => c15_plain l (const_name (renamed (cid c))) && c15_rtype_plain l (ctype c)
+  end.
